@@ -17,6 +17,11 @@ def families(tier, seed):
             for vec in (False, True):
                 out.append(dict(tag=f"{tag}/{T}/{dt}", features=dict(feats, dt=dt), kind="run", model=model, T=T, dt=dt, dts=None,
                                 solver="euler", vec=vec, only_vars=feats.get("only_vars")))
+    # the other fixed-step solver: the same delayed recurrence under Heun (both stages of step k read the source of step k - lag)
+    for tag, feats, model in gen.delay_families("discrete"):
+        if tag.split("-")[0] in ("D1", "D3"):
+            out.append(dict(tag=f"{tag}/heun", features=dict(feats, dt=0.1, heun=True), kind="run", model=model, T=2.0, dt=0.1, dts=None,
+                            solver="heun", vec=False, only_vars=feats.get("only_vars")))
     for tag, feats, ps in gen.c16_cases(seed):
         if tag.startswith("P5"):
             dt = feats.get("dt", 0.05)
